@@ -25,6 +25,7 @@ SPEC = {
         ("mahf::components::swarm::pso::ParticleVelocitiesUpdate", "mahf::components::Component", {"mahf::components::swarm::pso::InertiaWeight<Self>": ("field", "weight")}),
         ("mahf::components::swarm::pso::ParticleVelocitiesInit", "mahf::components::Component", {"mahf::components::swarm::pso::ParticleVelocities<I>": ("empty",)}),
         ("mahf::components::swarm::pso::PersonalBestParticlesInit", "mahf::components::Component", {"mahf::components::swarm::pso::BestParticles<P, I>": ("empty",)}),
+        ("mahf::components::swarm::pso::GlobalBestParticleUpdate", "mahf::components::Component", {"mahf::components::swarm::pso::BestParticle<P, I>": ("empty",)}),
     ],
     "C20": [("mahf::components::misc::cro::ChemicalReactionInit", "mahf::components::Component",
              {"mahf::components::misc::cro::ChemicalReaction<P>": ("empty",), "mahf::components::misc::cro::EnergyBuffer": ("field", "buffer")})],
@@ -78,6 +79,8 @@ def evaluate_init(F, adt, trait):
             return NONE
         if k == "mahf::state::registry::StateRegistry::entry":
             return Sym("entry:" + str(ty))
+        if k in ("mahf::state::registry::StateRegistry::contains", "mahf::state::registry::StateRegistry::has", "mahf::state::registry::StateRegistry::contains_at_top"):
+            return False          # the scenario is a state that does not hold the type yet: what init installs then
         a0 = load(interp, env, args[0]) if args else None
         if k.startswith("mahf::state::registry::entry::Entry::or_") and isinstance(a0, Sym) and a0.tag.startswith("entry:"):
             # the vacant case: what would be inserted
